@@ -72,8 +72,12 @@ def what_fails(st, consts):
 
 
 # ---- constants
-def consts(kind, alias, pset, steps, plen, conv, tokn, gov, prog, u1=2, u2=1, amt=(1, 2)):
-    return dict(Kind=kind, HasAlias=alias, InitU1=u1, InitU2=u2, Amt=list(amt), ProgLen=plen, ProgSet=pset,
+USERS_EXE = ["u1", "u2", "exe"]
+SPECIAL = ["u1", "mod", "wrap", "pre", "zero", "eth"]   # erc20 module account, token contract, precompile, zero address, eth module
+
+
+def consts(kind, alias, pset, steps, plen, conv, tokn, gov, prog, u1=2, u2=1, amt=(1, 2), recv=USERS_EXE, trecv=USERS_EXE):
+    return dict(Kind=kind, HasAlias=alias, InitU1=u1, InitU2=u2, Amt=list(amt), RecvSet=list(recv), TRecvSet=list(trecv), ProgLen=plen, ProgSet=pset,
                 MaxConv=conv, MaxTok=tokn, MaxGov=gov, MaxProg=prog), {"StepSet": steps}
 
 
@@ -104,6 +108,14 @@ for k in KINDS:
     MAIN.append(cfg(k + "-msgs", ["thorough"], k, True, "main", "StepsQ", 1, 3, 1, 2, 1, shards=16))      # longer message histories, one-step programs
     MAIN.append(cfg(k + "-len3", ["thorough"], k, True, "main", "StepsT", 3, 1, 1, 1, 1, shards=16))      # three-step programs
     MAIN.append(cfg(k + "-noalias", ["thorough"], k, False, "main", "StepsD", 2, 2, 1, 2, 1, shards=16))  # the pair without alias / bridge denomination
+    # special receivers: the erc20 module account, the token contract, the precompile address, the zero address, the eth module
+    # account named as receiver of conversions and direct transfers; every rejected operation is tried (no sampling)
+    c, ov = consts(k, True, "none", "StepsD", 1, 2, 1, 1, 0, amt=(1,), recv=SPECIAL, trecv=SPECIAL)
+    MC.append(dict(name=k + "-recv", tiers=["dev", "quick"], consts=c, overrides=ov))
+    MAIN.append(cfg(k + "-recv", ["dev", "quick"], k, True, "none", "StepsD", 1, 2, 1, 1, 0, shards=8, amt=(1,), recv=SPECIAL, trecv=SPECIAL))
+    c, ov = consts(k, True, "none", "StepsD", 1, 2, 2, 1, 0, recv=SPECIAL, trecv=SPECIAL)
+    MC.append(dict(name=k + "-recvT", tiers=["thorough"], consts=c, overrides=ov))
+    MAIN.append(cfg(k + "-recvT", ["thorough"], k, True, "none", "StepsD", 1, 2, 2, 1, 0, shards=16, recv=SPECIAL, trecv=SPECIAL))
     # replay, the known scenario only
     KNOWN.append(cfg(k + "-known-dev", ["dev"], k, True, "known", "StepsD", 2, 1, 1, 1, 0, shards=4, rej_sample=1, explore=0))
     KNOWN.append(cfg(k + "-known", ["quick"], k, True, "known", "StepsQ", 2, 1, 1, 1, 0, shards=6, rej_sample=1, explore=0))
@@ -125,9 +137,32 @@ ASSUMPTIONS = [
     "the crossChain precompile path does not consult the pair's enabled flag (modelled as the code does; the property does not mention it)",
     "the abstraction function reads erc20 store prefixes 0x01 0x02 0x03 0x05 raw, the base coin's bank metadata, bank balances/supply, "
     "totalSupply/balanceOf/allowance of the real contract, and the eth module's prefixes for the outgoing pool and outgoing bridge calls",
+    "special receivers (erc20 module account, token contract, crosschain precompile address, zero address, eth module account) are named by "
+    "conversions and direct transfers in a dedicated family; handing the escrowed asset to the pair's escrow account gratuitously (token transfer "
+    "to the module of an externally-owned pair, the wrapper named as coin receiver of ConvertERC20) is recorded by the environment ledger `gift`, "
+    "and the book equations read escrow = supply + gift",
+    "several pairs: Erc20Reg.tla (two MsgRegisterCoin coins, one MsgRegisterERC20 token, alias sets from a shared pool incl. another pair's base "
+    "denomination, MsgUpdateDenomAlias collisions), formulas C08_IndexesAgree / C08_RefusedChangesNothing of that module",
     "known finding %s: the scenario family (an in-EVM write to the executor's token balance followed by bridgeCall of the same token, not "
     "reverted) is replayed in a separate pass; everything else must hold with 0 deviations" % SCENARIO_ID,
 ]
+# ---- Erc20Reg.tla: several pairs, registrations with alias sets from one pool, alias updates (clause "the denom, contract
+# and alias indexes always describe the same set of pairs")
+REG_RESET = dict(name="Reset", p="none", al="none", set={}, res="ok")
+REG_FORMULAS = dict(invariants=["C08_IndexesAgree"], properties=["C08_RefusedChangesNothing"], p_properties=["P_C08_RefusedChangesNothing"])
+
+
+def reg_cfg(name, tiers, pairs, free, maxops, shards=8):
+    c = dict(Pair=pairs, Free=free, MaxOps=maxops)
+    return dict(name=name, tiers=tiers, consts=c, harness=[dict(chain=name, Kind="reg", Pair=pairs, Free=free)], shards=shards, rej_sample=0, explore=2)
+
+
+REG_GEN = [reg_cfg("reg-dev", ["dev"], ["c1", "c2"], ["x"], 2, shards=4),
+           reg_cfg("reg", ["quick"], ["c1", "c2", "e"], ["x", "y"], 3),
+           reg_cfg("regT", ["thorough"], ["c1", "c2", "e"], ["x", "y"], 5, shards=16)]
+REG_MC = [dict(name=c["name"], tiers=c["tiers"], consts=c["consts"]) for c in REG_GEN]
+REG_KW = dict(pid="C08", module="Erc20Reg", mcmodule="Erc20RegMC", pkg="erc20", formulas=REG_FORMULAS, reset_op=REG_RESET, level_note="", design_ref="5/C08")
+
 KW = dict(pid="C08", module="Erc20", mcmodule="Erc20MC", pkg="erc20", formulas=FORMULAS, reset_op=RESET, level_note="", design_ref="5/C08")
 
 
@@ -145,10 +180,12 @@ def run_c08(work, args):
 def _run_c08(work, args):
     tier = work.tier
     if getattr(args, "replay", None):
+        doc = json.load(open(args.replay))
+        if "Pair" in doc.get("consts", {}):     # a path of the registration family
+            return graph_property(work, args, mc_cfgs=[], gen_cfgs=[], assumptions=ASSUMPTIONS, **REG_KW)
         buf = io.StringIO()
         with contextlib.redirect_stdout(buf):
             rc = graph_property(work, args, mc_cfgs=[], gen_cfgs=[], assumptions=ASSUMPTIONS, **KW)
-        doc = json.load(open(args.replay))
         f = listed_finding(doc) if rc == 1 else None
         for line in buf.getvalue().splitlines():
             if line.startswith("VIOLATION") and f:
@@ -160,6 +197,19 @@ def _run_c08(work, args):
     rc1, ev, viol1, dev1 = graph_property(work, args, mc_cfgs=MC, gen_cfgs=MAIN, assumptions=ASSUMPTIONS, write=False, **KW)
     if viol1:
         return specs.finish(work, "C08", ev, ASSUMPTIONS, viol1, dev1)
+    # ---- pass 1b: several pairs (Erc20Reg.tla)
+    rcr, evr, violr, devr = graph_property(work, args, mc_cfgs=REG_MC, gen_cfgs=REG_GEN, assumptions=[], write=False, **REG_KW)
+    for k_ in ("states", "transitions", "traces_validated_against_impl", "real_transitions_replayed"):
+        ev[k_] += evr[k_]
+    for k_ in ("mc_runs", "gen_runs", "replay"):
+        ev[k_] += evr[k_]
+    ev["formulas"] += ["Erc20Reg!" + f for f in evr["formulas"]]
+    ev["accepted_by_operation"].update({"reg." + k_: v for k_, v in evr["accepted_by_operation"].items()})
+    ev["exhaustive"] = ev["exhaustive"] and evr["exhaustive"]
+    dev1 += devr
+    ev["deviations_from_spec"] = dev1
+    if violr:
+        return specs.finish(work, "C08", ev, ASSUMPTIONS, violr, dev1)
     # ---- pass 2: the known scenario only
     known = [c for c in KNOWN if tier in c["tiers"]]
     summary = dict(scenario=SCENARIO_ID, configs=[c["name"] for c in known])
